@@ -91,7 +91,7 @@ func init() {
 				// same ... blocks"), and hand every call the one record per block without defensive
 				// copies, the way a caller relying on C17 does (added after seeded change C06g)
 				share := c.Index%3 == 1
-				s = genForestScenario(c.Rng, tag, cfgs, fGenOpts{Profile: p, Rounds: 2 + c.Rng.Intn(3), Undo: true, ForceEmptyRootOverwrite: c.Index%4 == 0, Redo: share, Reload: c.Index%5 == 3})
+				s = genForestScenario(c.Rng, tag, cfgs, fGenOpts{Profile: p, Rounds: 2 + c.Rng.Intn(3), Undo: true, ForceEmptyRootOverwrite: c.Index%4 == 0, Redo: share, Reload: c.Index%5 == 3, JunkProofs: c.Index%5 == 4})
 				s.Share = share
 				if c.Index%8 == 5 {
 					s.LeafMode = "readd"
